@@ -140,8 +140,52 @@ def s_in_loop(rng, nval):
     return _mk(prog, "calls_in_loop", rng, nval, edges={"a": list(range(-5, 15))})
 
 
+def s_int_clash(rng, nval):
+    """The callee's int parameter has the name of a caller-visible compile-time integer (top-level `int`, loop
+    iterator); the body uses it in all-constant subexpressions (`n * 2`, literal values, coordinates)."""
+    types = gen.Types(rng)
+    prog = [["input", "a", types.fresh(), rng.randint(-3, 12)]]
+    pname = rng.choice(["n", "k", "i"])
+    outer_val = rng.randint(5, 9)
+    prog.append(["int", pname, ["n", outer_val]])
+    t = types.fresh()
+    const_sub = rng.choice([["b", "*", ["v", pname], ["n", 2]], ["b", "+", ["v", pname], ["n", 1]],
+                            ["b", "-", ["n", 20], ["v", pname]]])
+    body = [["sig", "loc", ["p", ["b", rng.choice(["*", "+"]), ["v", "s"], const_sub], t]]]
+    if rng.random() < 0.5:
+        body.append(["place", "lamp", "small-lamp", ["b", "*", ["v", pname], ["n", 2]], ["n", 22], None])
+        body.append(["set", "lamp", "enable", ["c", ">", ["v", "loc"], const_sub]])
+    prog.append(["func", "f", [["Signal", "s"], ["int", pname]], body, ["p", ["b", "+", ["v", "loc"], ["n", 1]], types.fresh()]])
+    used = set()
+    for j in range(rng.randint(1, 3)):
+        v = rng.choice([x for x in range(1, 12) if x != outer_val and x not in used])
+        used.add(v)
+        prog.append(["sig", "r%d" % j, ["call", "f", [["v", "a"], ["n", v]]]])
+    if rng.random() < 0.5 and pname != "i":
+        # the call inside a loop whose iterator is NOT the parameter's name but whose bound is the outer int
+        prog.append(["for", "j", ["range", 12, 14, None],
+                     [["sig", "q", ["p", ["call", "f", [["v", "a"], ["v", "j"]]], types.fresh()]],
+                      ["place", "ql", "small-lamp", ["b", "*", ["v", "j"], ["n", 2]], ["n", 26], None],
+                      ["set", "ql", "enable", ["c", ">", ["v", "q"], ["n", 3]]]]])
+    return _mk(prog, "int_parameter_named_like_caller_int", rng, nval, edges={"a": list(range(-5, 15))})
+
+
+def s_iter_clash(rng, nval):
+    """Calls inside `for n in ...` of a function whose int parameter is also called n (argument differs from n)."""
+    types = gen.Types(rng)
+    prog = [["input", "a", types.fresh(), rng.randint(-3, 12)]]
+    t = types.fresh()
+    prog.append(["func", "f", [["Signal", "s"], ["int", "n"]],
+                 [["sig", "loc", ["p", ["b", "*", ["v", "s"], ["b", "+", ["v", "n"], ["n", 1]]], t]]],
+                 ["b", "+", ["v", "loc"], ["b", "*", ["v", "n"], ["n", 2]]]])
+    body = [["place", "lamp", "small-lamp", ["b", "*", ["v", "n"], ["n", 2]], ["n", 20], None],
+            ["set", "lamp", "enable", ["c", ">", ["call", "f", [["v", "a"], ["b", "+", ["v", "n"], ["n", 10]]]], ["n", rng.randint(0, 40)]]]]
+    prog.append(["for", "n", ["range", rng.randint(0, 2), rng.randint(3, 5), None], body])
+    return _mk(prog, "int_parameter_named_like_loop_iterator", rng, nval, edges={"a": list(range(-5, 15))})
+
+
 STRATA = [(s_scalar, 4), (s_untyped_result, 2), (s_shadow, 3), (s_entity_param, 2), (s_entity_return, 2),
-          (s_local_memory, 2), (s_nested, 3), (s_in_loop, 2)]
+          (s_local_memory, 2), (s_nested, 3), (s_in_loop, 2), (s_int_clash, 3), (s_iter_clash, 2)]
 
 
 def gen_cases(tier, seed):
